@@ -762,6 +762,56 @@ def r9(k: Kit) -> None:
                   k.loc(fi, r), g.describe_path(w) if w else None)
 
 
+def r15(k: Kit) -> None:
+    """The SOCKS5 success reply has the length its address type says."""
+    rep = k.rep
+    rep.rule('C20.R15', 'dynamic forwarding: the SOCKS5 success reply is '
+             'VER REP RSV ATYP, then an all-zero bound address of the '
+             'length that ATYP announces (_socks5_addr_len[ATYP]) and two '
+             'port bytes - the client strips exactly that many bytes '
+             'before the relayed stream starts, so a shorter reply costs '
+             'the stream its first bytes')
+    fi = k.func('socks.SSHSOCKSForwarder._send_socks5_ok')
+    g = k.cfg(fi)
+    rd = k.rd(fi)
+    from ..flow import expr_sources
+    wr = [(nd, c) for nd, c in k.calls_named(fi, 'write', 'self._transport')]
+    rep.floor('C20.R15', 'SOCKS5 reply writes', len(wr), 1)
+
+    def parts(e):
+        if isinstance(e, ast.BinOp) and isinstance(e.op, ast.Add):
+            return parts(e.left) + parts(e.right)
+        return [e]
+    for nd, c in wr:
+        ps = parts(c.args[0])
+        echo = any('self._addrtype' in names_read(p_) and not isinstance(
+            p_, ast.BinOp) for p_ in ps)
+        pad = [p_ for p_ in ps if isinstance(p_, ast.BinOp) and
+               isinstance(p_.op, ast.Mult)]
+        ok = False
+        for p_ in pad:
+            cnt = p_.left if not isinstance(p_.left, ast.Constant) \
+                else p_.right
+            leaves, free = expr_sources(g, rd, nd.id, cnt)
+            for e in [cnt] + list(leaves):
+                if isinstance(e, ast.BinOp) and isinstance(e.op, ast.Add):
+                    sub = [x for x in (e.left, e.right)
+                           if isinstance(x, ast.Subscript)]
+                    two = [x for x in (e.left, e.right)
+                           if isinstance(x, ast.Constant) and x.value == 2]
+                    if sub and two and dotted(sub[0].value) == \
+                            '_socks5_addr_len' and \
+                            dotted(sub[0].slice) == 'self._addrtype':
+                        ok = True
+        rep.check(echo and ok, 'C20.R15',
+                  key(fi, 'reply length follows the address type'),
+                  'ATYP echoed, (_socks5_addr_len[ATYP] + 2) zero bytes',
+                  'the reply does not carry _socks5_addr_len[ATYP] + 2 '
+                  'bytes after ATYP: for an IPv6 literal the client takes '
+                  'the first 12 bytes of the relayed stream as the rest of '
+                  'the bound address', k.loc(fi, nd))
+
+
 def run(idx, rep, tier):
     k = Kit(idx, rep)
     rep.assumptions += NOT_DECIDED
@@ -773,6 +823,7 @@ def run(idx, rep, tier):
     r6(k)
     r7(k)
     r9(k)
+    r15(k)
     # C20.R8: a forwarded stream is a channel stream: EOF is sent after all
     # queued data and delivered after all buffered data (= C07.R2), also
     # when the destination applies back-pressure
@@ -819,3 +870,37 @@ def run(idx, rep, tier):
              'destination connect - OSError and the OverflowError of an '
              'out-of-range port - into ChannelOpenError for that channel')
     dest_connect_errors(k, 'C20.R13')
+    rep.rule('C20.R14', 'SSHClientListener.close() starts the task that '
+             'sends the cancel request at most once: the task is created on '
+             'the false edge of a flag that close() sets before creating it '
+             '- a second close() while the first cancel is in flight would '
+             'send a second cancel-tcpip-forward, which the server answers '
+             'by dropping the whole connection')
+    _fi = k.func('listener.SSHClientListener.close')
+    _g = k.cfg(_fi)
+    _sites = [n for n, c in k.call_nodes(_fi, lambda c: is_call(
+        c, 'create_task') and '_close' in unparse(c))]
+    rep.floor('C20.R14', 'cancel task creation', len(_sites), 1)
+    for _n in _sites:
+        _okf = False
+        for _a in _g.nodes:
+            _f = None
+            if _a.kind == 'atom' and _a.ast is not None:
+                _f = dotted(_a.ast)
+            if not (_f and _f.startswith('self._') and _f != 'self._conn'):
+                continue
+            if _g.guarded_by(_n.id, lambda x, f=_f: False if x.kind == 'atom'
+                             and dotted(x.ast) == f else None) is not None:
+                continue
+            _sets = [m.id for m, v in k.stores_to(_fi, _f)
+                     if isinstance(v, ast.Constant) and v.value is True]
+            if _sets and _g.must_pass(_sets, dst=_n.id) is None:
+                _okf = True
+        rep.check(_okf, 'C20.R14', key(_fi, 'cancel sent once'),
+                  'guarded by a closing flag set before the task is created',
+                  'every close() while the listener still has its '
+                  'connection starts another _close() task: `l.close(); '
+                  'l.close()` sends cancel-tcpip-forward twice, the server '
+                  'answers the second with "TCP/IP listener not found" and '
+                  'disconnects - every other listener and forward on the '
+                  'connection goes with it', k.loc(_fi, _n))
